@@ -95,9 +95,12 @@ def make_oracle(numeric, mono, decreasing, bound_numeric=True):
                 return mono
         if atom[0] == 'cmp' and atom[1] == '<':
             last, first = ('sub', VALUES, const(-1)), ('sub', VALUES, const(0))
-            if (atom[2], atom[3]) == (last, first):
+            if decreasing == 'equal':
+                if (atom[2], atom[3]) in ((last, first), (first, last)):
+                    return False       # single label / equal ends: neither strictly ordered
+            elif (atom[2], atom[3]) == (last, first):
                 return decreasing      # values[-1] < values[0]
-            if (atom[2], atom[3]) == (first, last):
+            elif (atom[2], atom[3]) == (first, last):
                 return (not decreasing) if decreasing is not None else None
         return None
     return oracle
@@ -250,6 +253,21 @@ def rule_tables(ctx, fi):
                 if stepkind == 'neg':
                     ctx.holds('R3', '%s/%s/%s' % ('dec' if dec else 'inc', stepkind, which))
                 n_entries += 1
+    # an axis whose first and last labels are equal (a single label) must use the increasing table
+    for stepkind in ('none', 'neg'):
+        scen = {'dec': False, 'step': stepkind, 'start': True, 'stop': True}
+        facts = dict(step_facts(stepkind))
+        facts[('cmp', 'is', START, T.CONST_NONE)] = False
+        facts[('cmp', 'is', STOP, T.CONST_NONE)] = False
+        ev = run(ctx, fi, bind={'issorted': const(False)}, facts=facts, oracle=make_oracle(True, True, 'equal'))
+        good = True
+        for p in ret_paths(ev):
+            v = p.value
+            if v[0] == 'tuple' and len(v[1]) == 2:
+                for which, comp in (('start', v[1][0]), ('stop', v[1][1])):
+                    good = check_bound(ctx, fi, scen, which, p, comp) and good
+        if good:
+            ctx.holds('R2', 'single-label axis (first == last) uses the increasing table / step %s' % stepkind)
     # issorted=True short-cut must behave like the increasing table
     for stepkind in ('none', 'neg'):
         scen = {'dec': False, 'step': stepkind, 'start': True, 'stop': True}
